@@ -27,6 +27,14 @@ RULE = ("pd-shapes: every (start month/day, end month/day) of seed-rotated year 
         "history-wall-twins (250: equal wall fields read as naive / UTC / +05:00 / -03:30 / Asia/Tokyo / mixed zones, and as plain Dates when at midnight), "
         "history-same-elapsed / history-shared-endpoint (250: equal elapsed time from 3-5 different start days; one start with several ends; one end with several starts); "
         "the first step of every history is repeated at its end. "
+        "TZINFO CLASSES (own generator): one zone NAME carried by tzinfo objects of different classes — pendulum Timezone, its base class zoneinfo.ZoneInfo, the pytz tzinfo "
+        "of the zone, hand-written tzinfo subclasses answering only .key / only .name / only .zone (also for the fixed-offset names of FixedTimezone) — every ordered pair of "
+        "classes, 16 zone names + 14 fixed offsets, a <= b k months apart on days next to a month end with local times within |offset| of midnight (so that the UTC calendar "
+        "differs from the wall clock), the witness 2021-03-31T00:30+02:00 -> 2021-05-01T00:30+02:00 Timezone/ZoneInfo first: pd-tzclass (~2500 direct helper calls on natives, both "
+        "directions + the pure-Python reference; ~10% straddle an offset change: correspondence only), interval-tzclass (~1500 Intervals between pendulum DateTimes that CARRY the "
+        "foreign tzinfo — class constructor / astimezone() — with a + (b - a), add(**components), the reversed Interval, and the Interval built from the native endpoints when "
+        "pendulum.instance maps both to the zone of that name), history-tzclass-twins (150: the same two wall times under 3-5 class pairs in one process). Oracle: same name and "
+        "offset = the shared local calendar, whatever the classes. "
         "Each pd case calls the backend helper in both directions and the "
         "pure-Python helper as reference. A case is non-trivial when the two operands differ.")
 EXHAUSTIVE = {"quick": False, "thorough": False}
@@ -47,6 +55,11 @@ TWO33 = (1 << 33) * 10**6
 
 # ----------------------------------------------------------------------------- operands
 # op = [kind, y, m, d, hh, mm, ss, us, tz]; kind "date"|"dt"; tz: None | ["utc"] | ["fixed", s] | ["putc"] | ["pfixed", s] | ["pzone", name, fold, offset]
+#      | [k, name, fold, offset] with k in FOREIGN: a tzinfo that is NOT a pendulum class but answers the name `name` to _get_tzinfo_name / get_tz_name:
+#        "zi" zoneinfo.ZoneInfo(name) (.key; pendulum's Timezone is a SUBCLASS of it), "pytz" the pytz tzinfo of the zone in force (.zone; a hand-written
+#        tzinfo with .zone when pytz is not importable or reads another offset), "akey" / "aname" / "azone" a hand-written tzinfo subclass whose only
+#        name attribute is key / name / zone (name may also be a fixed-offset name such as "+05:30", the name of pendulum's FixedTimezone)
+FOREIGN = ("zi", "pytz", "akey", "aname", "azone")
 def tz_offset(tz):
     if tz is None or tz[0] in ("utc", "putc"):
         return 0
@@ -73,11 +86,17 @@ def tz_obj_id(tz):
         return 0
     if tz[0] == "pzone":
         return zlib.crc32(("pzone" + tz[1]).encode()) % 10**9 + 1
+    if tz[0] in FOREIGN:     # one object per (class, name); pytz keeps one tzinfo object per offset of a zone
+        return zlib.crc32((tz[0] + tz[1] + (str(tz[3]) if tz[0] == "pytz" else "")).encode()) % 10**9 + 1
     return zlib.crc32(json.dumps(tz).encode()) % 10**9 + 1
 
 
 def name_id(n):
     return 0 if n is None else zlib.crc32(n.encode()) % 10**9 + 1
+
+
+def _is_foreign(op):
+    return op[0] == "dt" and op[8] is not None and op[8][0] in FOREIGN
 
 
 def enc(op):
@@ -355,6 +374,7 @@ def cases(tier, seed):
                 b = _mk("dt", fb[:3], fb[3:], ["pzone", z, 1, off])
                 out.append({"stream": "interval-second-occurrence", "fn": "iv", "args": [a, b]})
     history_cases(random.Random(seed * 7919 + 66006), 1 if quick else 10, out)
+    tzclass_cases(random.Random(seed * 7919 + 660006), 1 if quick else 6, out)     # own generator: the other streams of a seed are what they were
     return out
 
 
@@ -545,6 +565,152 @@ def history_cases(rnd, scale, out):
         emit("history-same-elapsed" if mode == "elapsed" else "history-shared-endpoint", steps)
 
 
+# ----------------------------------------------------------------------------- one zone NAME carried by tzinfo objects of different CLASSES
+# precise_diff decides "same timezone" by comparing the NAMES that _get_tzinfo_name (Python) / get_tz_name (Rust) read from the two tzinfo
+# objects (.key, else .name, else .zone) — not their identity and not their class: Timezone("Europe/Paris") (a subclass of ZoneInfo),
+# zoneinfo.ZoneInfo("Europe/Paris"), the pytz tzinfo of Europe/Paris and any tzinfo that answers that name are the SAME zone, and the pair is
+# decomposed on the shared wall clock.  The operands below are a <= b in one named zone with one offset whose two tzinfo objects are of
+# different classes (every ordered pair of {pendulum, ZoneInfo, pytz, hand-written .key / .name / .zone}), with local times within |offset| of
+# midnight next to a month end, so that a decomposition on the UTC calendar (what "different zones" means) gives other components.
+TZC_ZONES = ["Europe/Paris", "America/New_York", "Asia/Kolkata", "Asia/Tokyo", "Australia/Lord_Howe", "America/St_Johns", "Pacific/Chatham",
+             "America/Sao_Paulo", "Etc/GMT-1", "Etc/GMT+5", "Pacific/Kiritimati", "Pacific/Pago_Pago", "Asia/Kathmandu", "Europe/Paris",
+             "America/New_York", "UTC"]
+TZC_KINDS = ["pzone", "zi", "pytz", "akey", "aname", "azone"]
+
+
+def _pfixed_name(s):
+    return tz_name(["pfixed", s])
+
+
+def _tzc_local(rnd, z, ym=None, like=None):
+    """wall fields + offset of an unambiguous, existing local time of zone z (a named zone, or an int = fixed offset in seconds): a day next to a
+    month boundary and a time of day within |offset| of midnight on the side where the UTC date is another one (or the time `like`, or any)"""
+    y, m = ym if ym is not None else (rnd.randrange(1975, 2035), rnd.randrange(1, 13))
+    dim = calendar.monthrange(y, m)[1]
+    d = rnd.choice([dim, dim, 1, 1, dim - 1, 2, min(dim, rnd.choice([28, 29, 30, 31])), rnd.randrange(1, dim + 1)])
+    if isinstance(z, int):
+        off0 = z
+    else:
+        o = _dt.datetime(y, m, d, 12, tzinfo=_zi(z)).utcoffset()
+        off0 = o.days * 86400 + o.seconds
+    r = rnd.random()
+    if like is not None and r < 0.3:
+        t = list(like)
+    else:
+        if r < 0.8 and off0 > 0:
+            sod = rnd.randrange(0, min(off0, 86400))
+        elif r < 0.8 and off0 < 0:
+            sod = rnd.randrange(max(0, 86400 + off0), 86400)
+        else:
+            sod = rnd.randrange(86400)
+        if rnd.random() < 0.3:
+            sod = sod // 1800 * 1800
+        t = [sod // 3600, sod // 60 % 60, sod % 60, rnd.choice([0, 0, 1, 999999, rnd.randrange(10**6)])]
+    if isinstance(z, int):
+        return [y, m, d] + t, z
+    try:
+        zz = _zi(z)
+        loc = _dt.datetime(y, m, d, *t, tzinfo=zz)
+        o0, o1 = loc.utcoffset(), loc.replace(fold=1).utcoffset()
+        if o0 != o1 or o0.microseconds:
+            return None         # repeated (or skipped) wall time
+        back = (loc.replace(tzinfo=None) - o0).replace(tzinfo=_dt.timezone.utc).astimezone(zz)
+        if back.replace(tzinfo=None) != loc.replace(tzinfo=None):
+            return None         # skipped wall time
+    except Exception:  # noqa
+        return None
+    return [y, m, d] + t, o0.days * 86400 + o0.seconds
+
+
+def _tzc_pair(rnd, z):
+    """(fields a, offset a, fields b, offset b), a before b on the wall clock, k whole months apart give or take the month edge"""
+    A = _tzc_local(rnd, z)
+    if A is None:
+        return None
+    k = rnd.choice([1, 1, 1, 2, 3, 6, 11, 12, 13, 0, 25])
+    mm = A[0][1] - 1 + k
+    y2, m2 = A[0][0] + mm // 12, mm % 12 + 1
+    if not 1972 <= y2 <= 2036:
+        return None
+    B = _tzc_local(rnd, z, (y2, m2), like=A[0][3:])
+    if B is None or A[0] == B[0]:
+        return None
+    if B[0] < A[0]:
+        A, B = B, A
+    return A[0], A[1], B[0], B[1]
+
+
+def _tzc_tz(kind, z, off):
+    if isinstance(z, int):
+        return ["pfixed", z] if kind == "pzone" else [{"zi": "akey", "pytz": "azone"}.get(kind, kind), _pfixed_name(z), 0, z]
+    return [kind, z, 0, off]
+
+
+def _tzc_kinds(rnd):
+    ka, kb = rnd.choice(TZC_KINDS), rnd.choice(TZC_KINDS)
+    r = rnd.random()
+    if r < 0.45:
+        ka, kb = rnd.choice([("pzone", "zi"), ("zi", "pzone"), ("pzone", kb if kb != "pzone" else "pytz"), (ka if ka != "pzone" else "akey", "pzone")])
+    elif r < 0.9 and ka == kb:
+        kb = TZC_KINDS[(TZC_KINDS.index(ka) + 1 + rnd.randrange(5)) % 6]
+    return ka, kb
+
+
+def tzclass_cases(rnd, scale, out):
+    def op(f, kind, z, off):
+        return _mk("dt", f[:3], f[3:], _tzc_tz(kind, z, off))
+
+    # the witnesses first: 31 Mar 00:30+02:00 -> 1 May 00:30+02:00 (wall clock: 1 month 1 day; on the UTC calendar 30 Mar 22:30 -> 30 Apr 22:30: 1 month)
+    wit = [("Europe/Paris", [2021, 3, 31, 0, 30, 0, 0], [2021, 5, 1, 0, 30, 0, 0], 7200),
+           ("America/New_York", [2023, 1, 30, 21, 15, 10, 0], [2023, 2, 28, 22, 45, 30, 0], -18000)]
+    for z, fa, fb, off in wit:
+        for ka, kb in (("pzone", "zi"), ("zi", "pzone"), ("pytz", "pzone"), ("aname", "akey")):
+            out.append({"stream": "pd-tzclass", "fn": "pd", "args": [op(fa, ka, z, off), op(fb, kb, z, off)]})
+            out.append({"stream": "interval-tzclass", "fn": "iv", "args": [op(fa, ka, z, off), op(fb, kb, z, off)]})
+    n_pd, n_iv, n_h = 2500 * scale, 1500 * scale, 150 * scale
+    made = {"pd": 0, "iv": 0, "hist": 0}
+    guard = 0
+    while (made["pd"] < n_pd or made["iv"] < n_iv or made["hist"] < n_h) and guard < 40 * (n_pd + n_iv + n_h):
+        guard += 1
+        z = rnd.choice(TZC_ZONES) if rnd.random() < 0.85 else rnd.choice(H_OFFS)
+        P = _tzc_pair(rnd, z)
+        if P is None:
+            continue
+        fa, oa, fb, ob = P
+        ka, kb = _tzc_kinds(rnd)
+        a, b = op(fa, ka, z, oa), op(fb, kb, z, ob)
+        if tz_obj_id(a[8]) == tz_obj_id(b[8]) and oa != ob:
+            continue
+        a, b = _order(a, b)
+        r = rnd.random()
+        if oa != ob:
+            # the pair straddles an offset change: outside the statement (the oracle is silent), kept for the correspondence of the direct calls only
+            if made["pd"] < n_pd and r < 0.3:
+                out.append({"stream": "pd-tzclass", "fn": "pd", "args": [a, b]})
+                made["pd"] += 1
+            continue
+        if made["pd"] < n_pd and (r < 0.55 or made["iv"] >= n_iv):
+            out.append({"stream": "pd-tzclass", "fn": "pd", "args": [a, b]})
+            made["pd"] += 1
+        elif made["iv"] < n_iv and (r < 0.93 or made["hist"] >= n_h):
+            out.append({"stream": "interval-tzclass", "fn": "iv", "args": [a, b]})
+            made["iv"] += 1
+        elif made["hist"] < n_h:
+            # class twins: the SAME two wall times of the same zone, carried by other class pairs, one after the other in one process
+            combos = [("pzone", "pzone"), ("zi", "pzone"), ("pzone", "zi"), ("zi", "zi"), ("pytz", "pzone"), ("pzone", "pytz"), ("akey", "aname"),
+                      ("azone", "pzone"), ("pzone", "aname"), ("pytz", "zi"), (ka, kb)]
+            rnd.shuffle(combos)
+            steps = []
+            for k1, k2 in combos[:rnd.choice([3, 4, 5])]:
+                x, y = _order(op(fa, k1, z, oa), op(fb, k2, z, ob))
+                # (an Interval step whose START carries a foreign tzinfo is the business of interval-tzclass — Model/PdForeign.v is not part of
+                # the history model — so such a pair is observed through the helper here)
+                steps.append(["pd" if (rnd.random() < 0.25 or _is_foreign(x)) else "iv", x, y])
+            steps.append([steps[0][0], list(steps[0][1]), list(steps[0][2])])
+            out.append({"stream": "history-tzclass-twins", "fn": "hist", "args": steps})
+            made["hist"] += 1
+
+
 # UTC instants (zone, UTC fields, offset in force) inside the SECOND occurrence of a repeated wall time; pendulum.datetime(..., tz=zone) builds the
 # local fields with its default fold=1, i.e. as this second occurrence
 SECOND_OCCURRENCES = [("Europe/Paris", [2012, 10, 28, 1, 20, 0], 3600), ("Europe/Paris", [1996, 10, 27, 1, 0, 0], 3600), ("America/New_York", [2021, 11, 7, 6, 10, 0], -18000),
@@ -592,10 +758,61 @@ def impl_run(cases):
                 tzcache[k] = pendulum.timezone(tz[1])
         return tzcache[k]
 
+    class AttrTz(_dt.tzinfo):
+        """a tzinfo of a class of its own that answers one name attribute (key / name / zone) and otherwise reads the rules of `base`"""
+        def __init__(self, attr, name, base):
+            setattr(self, attr, name)
+            self._b = base
+
+        def utcoffset(self, d):
+            return self._b.utcoffset(d)
+
+        def dst(self, d):
+            return self._b.dst(d)
+
+        def tzname(self, d):
+            return self._b.tzname(d)
+
+        def fromutc(self, d):
+            r = self._b.fromutc(_dt.datetime(d.year, d.month, d.day, d.hour, d.minute, d.second, d.microsecond, tzinfo=self._b))
+            return _dt.datetime(r.year, r.month, r.day, r.hour, r.minute, r.second, r.microsecond, tzinfo=self, fold=r.fold)
+
+    def foreign_tz(op):
+        """the tzinfo object of an operand whose tz kind is in FOREIGN (never a pendulum class); its utcoffset() for the operand is tz[3]"""
+        import zoneinfo
+        kind, name, _fold, off = op[8]
+        fixed = name[0] in "+-"
+        if kind == "zi":
+            return zoneinfo.ZoneInfo(name)
+        if kind == "pytz" and not fixed:
+            k = "pytz:" + name
+            try:
+                if k not in tzcache:
+                    import pytz
+                    tzcache[k] = pytz.timezone(name)
+                loc = tzcache[k].localize(_dt.datetime(*op[1:8]), is_dst=False)
+                if loc.utcoffset() == _dt.timedelta(seconds=off) and hasattr(loc.tzinfo, "zone") and loc.tzinfo.zone == name:
+                    return loc.tzinfo
+            except Exception:  # noqa
+                pass
+        attr = {"akey": "key", "aname": "name", "azone": "zone", "pytz": "zone"}[kind]
+        k = json.dumps([kind, name, off if (kind == "pytz" or fixed) else None])
+        if k not in tzcache:
+            tzcache[k] = AttrTz(attr, name, _dt.timezone(_dt.timedelta(seconds=off)) if fixed else zoneinfo.ZoneInfo(name))
+        return tzcache[k]
+
+    def is_foreign(op):
+        return op[0] == "dt" and op[8] is not None and op[8][0] in FOREIGN
+
     def native(op):
         kind, y, m, d, hh_, mm, ss, us, tz = op
         if kind == "date":
             return _dt.date(y, m, d)
+        if is_foreign(op):
+            r = _dt.datetime(y, m, d, hh_, mm, ss, us, tzinfo=foreign_tz(op), fold=tz[2])
+            if r.utcoffset() != _dt.timedelta(seconds=tz[3]) or isinstance(r.tzinfo, (pendulum.tz.Timezone, pendulum.tz.FixedTimezone)):
+                raise RuntimeError("operand not built as described")
+            return r
         fold = tz[2] if tz is not None and tz[0] == "pzone" else 0
         return _dt.datetime(y, m, d, hh_, mm, ss, us, tzinfo=tzobj(tz), fold=fold)
 
@@ -605,6 +822,21 @@ def impl_run(cases):
             return pendulum.Date(y, m, d)
         if tz is None:
             return pendulum.naive(y, m, d, hh_, mm, ss, us)
+        if is_foreign(op):
+            # a pendulum DateTime that CARRIES the foreign tzinfo: the class constructor and astimezone() keep it (pendulum.datetime(tz=),
+            # instance(), in_tz(), replace() would convert it to a pendulum zone); both ways must give the same object
+            n = native(op)
+            r1 = pendulum.DateTime(y, m, d, hh_, mm, ss, us, tzinfo=n.tzinfo, fold=tz[2])
+            u = n.replace(tzinfo=None) - n.utcoffset()
+            r2 = pendulum.datetime(u.year, u.month, u.day, u.hour, u.minute, u.second, u.microsecond, tz="UTC").astimezone(n.tzinfo)
+            if (type(r1) is not pendulum.DateTime or r1.tzinfo is not n.tzinfo or r1.utcoffset() != n.utcoffset()
+                    or [r1.year, r1.month, r1.day, r1.hour, r1.minute, r1.second, r1.microsecond] != op[1:8]):
+                raise RuntimeError("operand not built as described")
+            # astimezone() keeps a ZoneInfo / hand-written tzinfo and converts a pytz one to the pendulum zone (not always to the right
+            # fields: pytz static zones, outside this property): its value is used only when it is the operand described
+            ok2 = (type(r2) is pendulum.DateTime and r2.tzinfo is n.tzinfo
+                   and [r2.year, r2.month, r2.day, r2.hour, r2.minute, r2.second, r2.microsecond, r2.utcoffset()] == op[1:8] + [n.utcoffset()])
+            return r2 if (us % 2 and ok2) else r1
         if tz[0] == "pzone":
             return pendulum.datetime(y, m, d, hh_, mm, ss, us, tz=tzobj(tz), fold=tz[2])
         return pendulum.datetime(y, m, d, hh_, mm, ss, us, tz=tzobj(tz))
@@ -652,6 +884,17 @@ def impl_run(cases):
             add = guarded(lambda: flds(x.add(years=cc[0], months=cc[1], weeks=cc[2], days=cc[3], hours=cc[4], minutes=cc[5],
                                              seconds=cc[6], microseconds=cc[7])))
         rev = comps(x - y)
+        if is_foreign(a[0]) or is_foreign(a[1]):
+            # the same two endpoints handed over as native datetimes (Interval converts them itself) must report the same components
+            # (only when Interval's own conversion, pendulum.instance, maps each tzinfo to the pendulum zone of the SAME name: it does so for .key
+            # and for pytz; a hand-written tzinfo with .name / .zone becomes a fixed offset named after the offset — outside this comparison)
+            try:
+                iv3 = pendulum.interval(native(a[0]), native(a[1]))
+                names = [iv3.start.timezone_name, iv3.end.timezone_name]
+            except Exception:  # noqa
+                iv3 = None
+            if iv3 is not None and names == [tz_name(a[0][8]), tz_name(a[1][8])] and comps(iv3) != cc:
+                return [1, "IntervalFromNativesDiffers"]
         return [0] + cc + reb + add + rev
 
     def run_hist(steps):
@@ -716,7 +959,9 @@ def model_calls(c, backend):
         return [("rs_precise_diff", A + B), ("rs_precise_diff", B + A)]
     if fn == "iv":
         A, B = enc(a[0]), enc(a[1])
-        return [(f"{backend}_interval", A + B), (f"{backend}_rebuild", A + B), (f"{backend}_interval", B + A)]
+        # a start that carries a non-pendulum tzinfo goes through the `self.tz is None` route of DateTime.add (Model/PdForeign.v)
+        reb = "_rebuild_fs" if _is_foreign(a[0]) else "_rebuild"
+        return [(f"{backend}_interval", A + B), (backend + reb, A + B), (f"{backend}_interval", B + A)]
     if fn == "add":
         A = enc(a[0])
         naive = list(A)
@@ -1041,6 +1286,11 @@ def known(c, backend, r):
     if fn == "iv" and tag in ("ranges", "rebuild", "rebuild-impl", "negation") and any(
             op[0] == "dt" and op[8] is not None and op[8][0] == "pzone" and op[8][2] == 1 for op in c["args"]):
         return "interval-init-drops-fold"
+    # DateTime.add on a start that carries a non-pendulum tzinfo (self.tz is None) with a non-zero offset and NO unit of variable length:
+    # moved to UTC, never moved back (Model/PdForeign.v; iv_rebuild_foreign_start_refuted / _partial)
+    if (fn == "iv" and tag == "rebuild-impl" and _is_foreign(c["args"][0]) and tz_offset(c["args"][0][8]) != 0 and r[1:5] == [0, 0, 0, 0]
+            and r[11] == 0 and r[12:19] == fields_of(wall_us(c["args"][1]) - tz_offset(c["args"][0][8]) * 10**6)):
+        return "add-foreign-tzinfo-time-units"
     if fn in ("pd", "iv") and tag in ("rebuild", "rebuild-impl"):
         fa, fb = _python_frame(c)
         if _month_arm_region(fa, fb):
@@ -1065,7 +1315,9 @@ LEVEL_TEXT = ("Machine-checked Coq theorems about the pure-Python precise_diff (
               "memo_keyed_by_all_fields_is_transparent) and NOT transparent when looked up with CPython's ==/hash (memo_keyed_by_equality_refuted: the same two instants in UTC and at "
               "+05:00; memo_keyed_by_equality_order_dependent; memo_keyed_by_equality_conflates_folds: fold 0 / 1 of a repeated wall time).")
 DESIGN_REF = "DESIGN.md section 4 C06"
-LEVEL_NOTE = ("Trusted: Coq kernel+VM, the translator, the primitives of Model/PdBase.v as a model of CPython datetime, the hand models of the Rust helper "
+LEVEL_NOTE = ("Tzinfo classes: INSIDE the model (an operand carries a name id and an object id; a class pair = one name id, two object ids: dispatch entries "
+              "py/rs_precise_diff, _interval, _rebuild, _history, and _rebuild_fs = Model/PdForeign.v for a start whose tzinfo is not a pendulum class); no oracle-only stream. "
+              "Trusted: Coq kernel+VM, the translator, the primitives of Model/PdBase.v as a model of CPython datetime, the hand models of the Rust helper "
               "and of the Interval glue (validated by correspondence every run), extraction+driver (cross-checked with vm_compute). "
               "Process histories: the model run_history is stateless by construction and is compared with one interpreter performing the same constructions in order (history-* "
               "streams, inside the model: dispatch entries py_history / rs_history; no oracle-only stream); the oracle judges every step on its own operands.")
